@@ -54,6 +54,7 @@ type jsonCol struct {
 
 type sqlGen struct {
 	jsonCols []jsonCol
+	timeCols map[int][]string // per table index: names of the time.Time columns
 	t        *rapid.T
 	o        *SQLOpts
 	spec     *Spec
@@ -101,7 +102,7 @@ func GenSQL(t *rapid.T, o *SQLOpts) *Spec {
 	if o.MaxTables == 0 {
 		o.MaxTables = 4
 	}
-	sg := &sqlGen{t: t, o: o, used: map[string]bool{}, arrTypes: map[string]string{}}
+	sg := &sqlGen{t: t, o: o, used: map[string]bool{}, arrTypes: map[string]string{}, timeCols: map[int][]string{}}
 	rootName := []string{"models", "store", "tables", "db1"}[rapid.IntRange(0, 3).Draw(t, "sqlPkg")]
 	sg.root = &Pkg{Name: rootName, Path: Module + "/" + rootName, Files: []*File{{Name: "defs.go"}, {Name: "other.go"}}}
 	sg.defs, sg.other = sg.root.Files[0], sg.root.Files[1]
@@ -634,6 +635,7 @@ func %[1]sArrayToPQ(ids []%[1]s) pq.Int64Array {
 			}
 		case "time":
 			f.Type = Std("time", "Time")
+			sg.timeCols[idx] = append(sg.timeCols[idx], name)
 		case "date":
 			f.Type = sg.local(sg.ensureDate())
 		case "stamp":
@@ -880,6 +882,7 @@ func (sg *sqlGen) addDirectives(idx int, tb *sqlTable, plainCols, fkFields []str
 	// custom queries
 	if len(plainCols) >= 1 && rapid.IntRange(0, 1).Draw(t, "queryDirective") == 0 {
 		all := append(append([]string{}, plainCols...), fkFields...)
+		all = append(all, sg.timeCols[idx]...) // a time.Time column may be compared with a placeholder as well
 		setCol := all[rapid.IntRange(0, len(all)-1).Draw(t, "querySet")]
 		whereCol := all[rapid.IntRange(0, len(all)-1).Draw(t, "queryWhere")]
 		fn := sg.fresh("Query" + tb.name + setCol)
